@@ -102,6 +102,10 @@ def sumLoop (molarMass : String → Option Rat) : List Tok → Rat → Option Ra
     | some m => sumLoop molarMass rest (acc + m)
   | _ :: _, _ => none
 
+/-- the dimensionality every element's molar mass must have to be summed (after the fix: a
+symbol whose `molar_mass` is in some other unit makes the name "not a formula") -/
+def molarMassUnit : Dim := [("kg", 1), ("mol", -1)]
+
 /-- molar mass (kg/mol) of a formula; an empty string is not a formula (after the fix) -/
 def molarMass (mm : String → Option Rat) (formula : String) : Option Rat :=
   if formula.isEmpty then none else
